@@ -24,6 +24,7 @@ class Wire:
         self.pos = bv(0)                # bytes consumed by the server
         self.end = end                  # 'eof' | ErrorKind name: what a read at the end of the data returns
         self.short_reads = short_reads
+        self.short_budget = 3
         self.log = []                   # ('w', piece) ('flush',) ('shutdown', how, side) ('read', n)
         self.reads = 0
         self.read_limit = 4000
@@ -78,7 +79,12 @@ class SockObj(Opaque):
             return Ok(bv(0))
         cap = z3.simplify(z3.If(z3.ULT(blen, rem), blen, rem))
         cc = conc(cap)
-        if not w.short_reads or cc == 1:
+        if w.short_reads == 'choose' and cc is not None and cc > 1 and w.short_budget > 0:
+            # enumerated segmentation: this read delivers 1, 3 or all available bytes (each a separate path)
+            opts = [x for x in (1, 3) if x < cc] + [cc]
+            n = bv(opts[ctx.choose(len(opts), 'seg')])
+            w.short_budget -= 1
+        elif not w.short_reads or w.short_reads == 'choose' or cc == 1:
             n = cap
         else:
             n = ctx.fresh_bv('nread')
